@@ -8,7 +8,7 @@ import copy
 from python_minifier.ast_annotation import add_parent
 from python_minifier.rename import add_namespace
 from harness.renamekern import trees_equal
-from vf.stubs import untraced, mod, patched, builtins_stubbed, deterministic_node_hash
+from vf.stubs import untraced, bits_index, decode_index, mod, patched, builtins_stubbed, deterministic_node_hash
 
 
 def prep(module):
@@ -689,3 +689,24 @@ def _gating_impl(o_lit, o_imp, o_ann, o_pass, o_obj, o_ass, o_dbg, o_ret, o_fold
             if label == 'rename' and not (k.get('prefix_globals') == (not eff_rg)):
                 return False
     return True
+
+
+def suite_kernel_b(which: int, n: int, b0: bool, b1: bool, b2: bool, b3: bool, b4: bool, b5: bool, b6: bool, b7: bool, b8: bool, b9: bool, b10: bool, b11: bool) -> bool:
+    """
+    pre: 0 <= which <= 3
+    pre: 0 <= n <= 3
+    post: _
+    """
+    # suite_kernel with the parent kind and statement kinds taken from 12 boolean structure parameters
+    return untraced(_suite_b_impl, which, n, bits_index(b0, b1, b2, b3, b4, b5, b6, b7, b8, b9, b10, b11))
+
+
+def _suite_b_impl(which, n, idx):
+    d = decode_index(idx, [N_PARENT] + [N_STMT] * n)
+    if d is None:
+        return True
+    pk = d[0]
+    ks = d[1:] + [0] * (3 - n)
+    if n == 0 and PARENT_KINDS[pk] != 'module':
+        return True
+    return _suite_kernel_impl(which, pk, n, ks[0], ks[1], ks[2])
